@@ -231,6 +231,12 @@ def worldLine (st : WState) (line : String) : WState × List String :=
     | ["lazy_panic"], _ =>
       -- a panicking lazy action ends the comparison of this case (outside the model; see the harness): every monitor off
       ({ st with diverged := true, monDead := true, lgDead := true, evDead := true, c01Dead := true, caseNontrivial := true }, [])
+    | ["lazy_probe"], rts =>
+      -- after the caught panic of a lazy action the world must still run lazy actions (C19: "remains usable"; C09)
+      if rts == ["ran"] then (st, [])
+      else ({ st with mons := st.mons + 2 },
+            [s!"MON C19 case={st.caseId} line={st.lineNo} C19 after a caught panic inside a lazily executed action a newly queued action is not run by the next maintain op=[lazy_probe] impl=[{r}]",
+             s!"MON C09 case={st.caseId} line={st.lineNo} C09 a queued action was not run by the next maintain (after a caught panic of an earlier action) op=[lazy_probe] impl=[{r}]"])
     | ["entry_far", _k, v], rts =>
       -- probe outside the model (C08): `entry_inner(2^24+1).or_insert(v)`; the mask refuses the index, the value handed
       -- over must be destroyed exactly once all the same (unwind guard of the insertion). Ledger bookkeeping only.
